@@ -18,6 +18,8 @@ import Mathlib.Data.Matrix.Mul
 import Mathlib.LinearAlgebra.Matrix.ConjTranspose
 import Mathlib.Data.Real.Basic
 import Mathlib.Algebra.Star.Pi
+import Mathlib.LinearAlgebra.Complex.FiniteDimensional
+import Mathlib.LinearAlgebra.Dimension.Constructions
 
 set_option linter.unusedSectionVars false
 set_option linter.unnecessarySeqFocus false
@@ -100,6 +102,24 @@ theorem complexSys_spdp (M : Matrix n n ℂ) (b : Option (n → ℂ)) (N : Optio
     cases N with
     | none => rfl
     | some N' => exact reDot_mulVec_selfAdj (hN N' rfl).1 x y
+
+/-- real dimension of `ℂⁿ` -/
+theorem finrank_complex_vec (n : ℕ) : Module.finrank ℝ (Fin n → ℂ) = 2 * n := by
+  rw [Module.finrank_pi_fintype]
+  simp [Complex.finrank_real_complex, mul_comm]
+
+/-- exact termination for complex Hermitian positive definite `n × n` systems: at most `2n` iterations (the real
+    dimension; the sharper classical bound `n` needs the complex-linear structure and is not proved here) -/
+theorem cg_exact_complexSys {τ : Type} {n : ℕ} (M : Matrix (Fin n) (Fin n) ℂ) (b : Option (Fin n → ℂ))
+    (N : Option (Matrix (Fin n) (Fin n) ℂ)) (ninfsq : (Fin n → ℂ) → ℝ) (hM : Mᴴ = M)
+    (hMpos : ∀ x : Fin n → ℂ, x ≠ 0 → 0 < (star x ⬝ᵥ M *ᵥ x).re)
+    (hN : ∀ N', N = some N' → N'ᴴ = N' ∧ ∀ x : Fin n → ℂ, x ≠ 0 → 0 < (star x ⬝ᵥ N' *ᵥ x).re)
+    (c : Ctrl ℝ τ) (nreset : Int) (fuel : Nat) (hfuel : 2 * n ≤ fuel) (x0 : Fin n → ℂ) :
+    (cg (complexSys M b N ninfsq) c nreset fuel (QE.at (complexSys M b N ninfsq) x0)).reason ≠ .fuel ∧
+    (cg (complexSys M b N ninfsq) c nreset fuel (QE.at (complexSys M b N ninfsq) x0)).iters.length ≤ 2 * n := by
+  have h := cg_exact (complexSys M b N ninfsq) (complexSys_spdp M b N ninfsq hM hMpos hN) c nreset fuel
+    (by rw [finrank_complex_vec]; exact hfuel) _ (at_consistent _ x0)
+  rwa [finrank_complex_vec] at h
 
 end complex
 
